@@ -587,7 +587,7 @@ class Controller
         const bool got = (r.bools >> (kind * 2 + i)) & 1U;
         const bool exp = kind == kKOG ? false : ms_[t][kind][i].own;
         if (got != exp) {
-          Fail("C07", Fmt("guard-bool-mismatch:%s", kKindNames[kind]),
+          Fail(kind == kKCG ? "C13" : "C07", Fmt("guard-bool-mismatch:%s", kKindNames[kind]),
                Fmt("after '%s': t%d %s[%d] converts to %d but the ownership model says %d", what.c_str(), t, kKindNames[kind], i,
                    static_cast<int>(got), static_cast<int>(exp)));
           ms_[t][kind][i].own = got;  // resynchronise to limit follow-up noise
